@@ -34,7 +34,7 @@ Qed.
 (* allocation never produces a non-zero count *)
 Lemma eventfd_KP : forall k b, KP k (fst (k_eventfd k b)).
 Proof.
-  intros k b. unfold k_eventfd. destruct (emfile _); [apply KP_refl|]. destruct (_ || _); [apply KP_refl|].
+  intros k b. unfold k_eventfd. destruct (emfile _); [apply KP_refl|]. destruct (_ && _); [apply KP_refl|].
   pose proof (KP_alloc k K_EVENTFD) as A. destruct (k_alloc k K_EVENTFD) as [fd k1]. exact A.
 Qed.
 
@@ -136,9 +136,9 @@ Proof.
   set (s2 := do_close s1 (rw_rfd s1 j)).
   destruct (do_close_CF s1 (rw_rfd s1 j)) as [A2 C2]. fold s2 in A2, C2.
   destruct (do_close_OF s1 (rw_rfd s1 j)) as [O2 _]. fold s2 in O2.
-  set (s3 := if efd_raw s2 =? 0 then do_close s2 (rw_wfd s2 j) else s2).
+  set (s3 := if raw_is_pipe s2 j then do_close s2 (rw_wfd s2 j) else s2).
   assert (A3 : CF s2 s3 /\ KO (kern s2) (kern s3)).
-  { unfold s3. destruct (efd_raw s2 =? 0); [|split; [apply CF_refl|apply KO_refl]].
+  { unfold s3. destruct (raw_is_pipe s2 j); [|split; [apply CF_refl|apply KO_refl]].
     split; [apply (proj1 (do_close_CF s2 (rw_wfd s2 j)))|apply (of_k _ _ (proj1 (do_close_OF s2 (rw_wfd s2 j))))]. }
   destruct A3 as [A3 O3].
   assert (A : CF s s3) by (eapply CF_trans; [constructor; eassumption|]; eapply CF_trans; eassumption).
@@ -157,7 +157,7 @@ Proof.
   intros s j D RJ RG WT. unfold raw_post.
   match goal with |- context [let '(k1, _) := ?X in _] =>
     assert (K : KPn (wtarget (kern s) (rw_wfd s j)) (kern s) (fst X)); [|destruct X as [k1 x]] end.
-  { destruct (efd_raw _ =? 0); apply KPn_write. }
+  { destruct (raw_is_pipe _ _); apply KPn_write. }
   cbn [fst] in K. apply (CQ_step (wtarget (kern s) (rw_wfd s j)) s); [exact D|exact K| |].
   - intros fd _ H. left. exact H.
   - intros fd IN _ _. left. exists j. cbn [rw_reg rw_rfd set_kern]. split; [exact RG|]. split; [exact RJ|apply WT; exact IN].
@@ -169,7 +169,7 @@ Proof. intros. unfold k_alloc. cbn [fst snd]. rewrite k_open_put, Z.eqb_refl. re
 
 Lemma eventfd_open : forall k b fd, snd (k_eventfd k b) = inl fd -> k_open (fst (k_eventfd k b)) fd = Some (vfd0 K_EVENTFD).
 Proof.
-  intros k b fd. unfold k_eventfd. destruct (emfile _); [discriminate|]. destruct (_ || _); [discriminate|].
+  intros k b fd. unfold k_eventfd. destruct (emfile _); [discriminate|]. destruct (_ && _); [discriminate|].
   pose proof (alloc_open k K_EVENTFD) as A. destruct (k_alloc k K_EVENTFD) as [fd0 k1]. cbn [fst snd] in *.
   intros E. inversion E; subst. exact A.
 Qed.
